@@ -126,6 +126,17 @@ func randSession(r *hlib.Rand) (size int, uses []fileUse) {
 		u := fileUse{p: randOpts(r)}
 		a := pickPos(r, int64(size), prev)
 		l := int64(r.Range(1, 80))
+		if size > aheadWindow+200 && r.Intn(3) == 0 {
+			// a use early in the file: its read fills a cache window that ends inside the file
+			a = int64(r.Intn(size - aheadWindow - 100))
+		}
+		if len(prev) > 0 && r.Intn(2) == 0 {
+			// a range straddling the end of the window filled by the previous use
+			if e := prev[len(prev)-1] + aheadWindow; e+2 < int64(size) {
+				l = int64(r.Range(2, 80))
+				a = e - int64(r.Range(1, int(l)-1))
+			}
+		}
 		switch r.Intn(8) {
 		case 0:
 			l = int64(r.Range(1, 6) * u.p.lb)
@@ -262,11 +273,6 @@ func runFileSession(o *hlib.Out, seed uint64, size int, real bool, uses []fileUs
 }
 
 func genFileSessions(o *hlib.Out, r *hlib.Rand, n int) {
-	// the shape of the round-3 seed: window not starting at 0, then a dump straddling its end
-	runFileSession(o, 7, aheadWindow+500000, false, []fileUse{
-		{a: 100, b: 116, p: dumpOpts{kind: "dd", lb: 16, ab: 16, sb: 10}},
-		{a: aheadWindow + 92, b: aheadWindow + 108, p: dumpOpts{kind: "dd", lb: 16, ab: 16, sb: 10}},
-	})
 	for i := 0; i < n; i++ {
 		size, uses := randSession(r)
 		runFileSession(o, r.U64()>>1, size, r.Intn(3) == 0, uses)
